@@ -433,7 +433,7 @@ def r7(ctx: Ctx) -> None:
     check_order_ids(ctx)
 
 
-@rule("C02.H2", "prices, times and ids are compared by value wherever orders are ranked (two equal prices are one price level, whichever float objects hold them)", "T13 lint over Order, OrderKind, OrderBook", floor=15)
+@rule("C02.H2", "prices, times and ids are compared by value wherever orders are ranked (two equal prices are one price level, whichever float objects hold them)", "T13 lint over Order, OrderKind, OrderBook", floor=1)
 def h2(ctx: Ctx) -> None:
     from .events import check_identity_comparisons
 
